@@ -213,7 +213,7 @@ int main(int argc, char **argv) {
 		// wait until every item ran and every lane is idle: unlocked, not enqueued, empty (plain reads: not recorded).
 		// The watchdog is progress-based: it gives up only after 20 s in which neither the number of items run nor any
 		// lane's dq_state / tail changed (a loaded machine only slows progress down)
-		int idle = 0; uint64_t last_sig = ~0ull; struct timespec t_last, t_now; clock_gettime(CLOCK_MONOTONIC, &t_last);
+		int idle = 0; uint64_t last_sig = ~0ull; struct timespec t_last, t_now, t_begin; clock_gettime(CLOCK_MONOTONIC, &t_last); t_begin = t_last;
 		for (;;) {
 			uint64_t sig = (uint64_t)atomic_load(&ran) * 0x9E3779B97F4A7C15ull + (uint64_t)atomic_load(&nitems_total);
 			idle = atomic_load(&ran) == atomic_load(&nitems_total);
@@ -227,6 +227,7 @@ int main(int argc, char **argv) {
 			clock_gettime(CLOCK_MONOTONIC, &t_now);
 			if (sig != last_sig) { last_sig = sig; t_last = t_now; }
 			else if ((t_now.tv_sec - t_last.tv_sec) + (t_now.tv_nsec - t_last.tv_nsec) / 1e9 > 20.0) break;
+			if (t_now.tv_sec - t_begin.tv_sec > 900) break;   // changing for ever without going idle: a livelock, not load
 			usleep(50);
 		}
 		usleep(300);   // let the last drainer leave the objects (reference counts, root-queue bookkeeping)
